@@ -614,7 +614,8 @@ def node_class_strings():
         'Pow': ['2 ** 3', '9 ** 9 ** 9'], 'FloorDiv': ['7 // 2'], 'LShift': ['1 << 100'], 'RShift': ['1 >> 1'], 'BitOr': ['1 | 2'],
         'BitXor': ['1 ^ 2'], 'BitAnd': ['1 & 2'], 'MatMult': ['rows @ rows'], 'Invert': ['~amount'], 'UAdd': ['+description'],
         'Is': ['contains is contains'], 'IsNot': ['contains is not len'], 'Mod': ['"%s" % contains', '5 % 0'], 'Div': ['1 / 0'],
-        'keyword': ['split(description, delimiter="-", index=0)', 'round(number=1.5)'],
+        'keyword': ['split(description, delimiter="-", index=0)', 'round(number=1.5)', 'contains("NETFLIX", exact=True)', 'len(rows, key=lambda r: r)',
+                    'abs(amount, x=__import__("os"))', 'contains("x", **field)', 'description.upper(k={})', 'round(amount, ndigits=[1][0])', 'trim(description, f=f"{amount}")'],
     }
     out = []
     for k, v in S.items():
@@ -704,12 +705,28 @@ def plain_outcome(rec, where, s, fn, haystack, ep, nodes=None, final_generator_o
                 # mechanism: a generator expression is the final value of a let/field/variable/tag/transform element
                 key = 'generator-as-final-value:' + where.split(' ')[-1]
             rec.violation(key, f'{where}: {s!r} -> {p}', case)
+    if out[0] == 'v' and where in ('evaluate_transaction', 'evaluate_transaction(minimal)', 'views evaluate') and outside_language(s):
+        # text that needs a construct the language does not have (lambda, dict / set / list / tuple displays, f-strings, *args, keyword arguments, yield,
+        # await, slices) has no value - wherever in the text the construct stands, evaluated or not
+        rec.violation('text-outside-the-language-evaluates', f'{where}: {s!r} -> {str(out[1])[:80]!r}', case)
     if immut is not None:
         rec.count('immutability_checks')
         if not same_data(snap, immut):
             rec.violation('evaluation-mutates-input', f'{where}: {s!r} changed the transaction / rows / variables', case)
     rec.count('outcome:' + out[0])
     return out
+
+
+_OUTSIDE = (ast.Lambda, ast.Dict, ast.Set, ast.DictComp, ast.SetComp, ast.JoinedStr, ast.FormattedValue, ast.Starred, ast.Await, ast.Yield, ast.YieldFrom,
+            ast.keyword, ast.List, ast.Tuple, ast.Slice)
+
+
+def outside_language(s):
+    try:
+        tree = ast.parse(s.strip(), mode='eval')
+    except (SyntaxError, ValueError, RecursionError, MemoryError):
+        return False
+    return any(isinstance(n, _OUTSIDE) for n in ast.walk(tree))
 
 
 def same_data(a, b):
@@ -891,6 +908,28 @@ def run_file_contexts(rec, ep, s, rnd):
         return {k: [m['merchant'] for m in v] for k, v in r.items()}
     plain_outcome(rec, 'views file ' + vslot, s, gov, s + vt, ep, final_generator_ok=False)
     rec.count('views_context_runs')
+    # user variables are only READ: evaluating a view (its own variables, then its filter) leaves the mapping of evaluated variables it was handed as it was
+    from tally import section_engine as se
+    try:
+        cfg2 = parse_sections('lim = 100\nseen = count(payments)\n[A]\nlim = 10\nnote = %s\nfilter: total > lim or true\n[B]\nfilter: total > lim\n' % s)
+    except Exception:
+        cfg2 = None
+    if cfg2 is not None:
+        tx2 = copy.deepcopy(groups[0]['transactions'])
+        try:
+            gv = se.evaluate_variables(cfg2.global_variables, tx2, 12, None, {'month': 1})
+            snap = repr(sorted(gv.items(), key=lambda kv: kv[0]))
+            for sec in cfg2.sections:
+                try:
+                    se.evaluate_section_filter(sec, tx2, 12, gv, {'month': 1})
+                except Exception:
+                    pass
+            rec.count('view_evaluation_leaves_user_variables_checks')
+            if repr(sorted(gv.items(), key=lambda kv: kv[0])) != snap:
+                rec.violation('view-evaluation-writes-user-variables', f'view-local variable `note = {s}`: after evaluating the views the mapping of global variables changed: '
+                              f'{snap[:150]} -> {repr(sorted(gv.items(), key=lambda kv: kv[0]))[:150]}', {'kind': 's', 'where': 'views file variable', 's': s})
+        except Exception:
+            pass
 
 
 def classify_nontrivial(s):
